@@ -1891,7 +1891,7 @@ func (p *Parser) parseExpression(prec OpPrec) IExpr {
 				if yieldExpr.Generator {
 					p.next()
 					yieldExpr.X = p.parseExpression(OpAssign)
-				} else if p.tt != CloseBraceToken && p.tt != CloseBracketToken && p.tt != CloseParenToken && p.tt != ColonToken && p.tt != CommaToken && p.tt != SemicolonToken {
+				} else if p.tt != CloseBraceToken && p.tt != CloseBracketToken && p.tt != CloseParenToken && p.tt != ColonToken && p.tt != CommaToken && p.tt != SemicolonToken && p.tt != TemplateMiddleToken && p.tt != TemplateEndToken {
 					yieldExpr.X = p.parseExpression(OpAssign)
 				}
 			}
